@@ -676,17 +676,43 @@ func (tb *TB) Script(hyps []*Term, goal *Term, getValues []*Term, opts ScriptOpt
 	}
 	named := map[*Term]string{}
 	sort.Slice(order, func(i, j int) bool { return order[i].ID < order[j].ID })
+	// ground sub-terms of quantifier patterns must be real constants: solvers expand define-fun
+	// macros inside patterns and then reject patterns containing ite/and/not
+	inPattern := map[*Term]bool{}
+	var markPat func(t *Term)
+	markPat = func(t *Term) {
+		if !t.Bound {
+			if t.Kind == kApp {
+				inPattern[t] = true
+			}
+			return
+		}
+		for _, a := range t.Args {
+			markPat(a)
+		}
+	}
+	for _, t := range order {
+		if t.Kind == kQuant {
+			for _, p := range t.Pats {
+				markPat(p)
+			}
+		}
+	}
 	for _, t := range order {
 		if t.Bound || t.Kind != kApp && t.Kind != kQuant {
 			continue
 		}
-		if reach[t] < 2 && t.Kind != kQuant && termSize(t, 12) < 12 {
+		if !inPattern[t] && reach[t] < 2 && t.Kind != kQuant && termSize(t, 12) < 12 {
 			continue
 		}
 		name := fmt.Sprintf("n!%d", t.ID)
 		var b strings.Builder
 		tb.write(&b, t, named) // children already named
-		fmt.Fprintf(&sb, "(define-fun %s () %s %s)\n", name, t.Sort, b.String())
+		if inPattern[t] {
+			fmt.Fprintf(&sb, "(declare-fun %s () %s)\n(assert (= %s %s))\n", name, t.Sort, name, b.String())
+		} else {
+			fmt.Fprintf(&sb, "(define-fun %s () %s %s)\n", name, t.Sort, b.String())
+		}
 		named[t] = name
 	}
 	for i, a := range tb.axioms {
